@@ -1,6 +1,8 @@
 SPECIFICATION Spec
 CONSTANTS
   MaxOps = 3
+  UnitKinds = {"set32", "set64", "getp"}
+  MaxPos = 3
 INVARIANTS
   TreeShaped
   FlatBalanced
